@@ -11,8 +11,8 @@ RULE = (
     "commands sub(behaviour)/unsub(i)/on_next(v in the full value domain incl. None and falsy values)/on_error/"
     "on_completed/dispose on one Subject, indices resolved modulo the live observers; observer behaviours: plain recorder, "
     "unsubscribe itself / unsubscribe another observer / subscribe a new observer from inside its k-th callback "
-    "(k in 0..4). Enumerated: every command sequence of length <= 4 (quick) / <= 6 (thorough) over a 9-symbol alphabet "
-    "(4 behaviours at k=0, unsub, next, error, completed, dispose). Oracle: an explicit model (observer list in "
+    "(k in 0..4). Enumerated: every command sequence of length <= 4 (quick) / <= 6 (thorough) over a 10-symbol alphabet "
+    "(4 behaviours at k=0, unsub, next, error, completed, dispose, fail). Oracle: an explicit model (observer list in "
     "subscription order, terminal state, disposed flag) executed in lock-step; after EVERY command the received list of "
     "every observer (type-tagged values), the exception raised by the call (DisposedException after dispose for "
     "on_next/on_error/on_completed/subscribe) and the length of subject.observers are compared. Delivery goes to the "
@@ -24,7 +24,8 @@ RULE = (
     "truth value is False (it defines __len__ == 0). det (Engine DET, vlib/det.py: line-level yield points, cooperative locks, subject created after patching): thread A subject.subscribe(recorder) || thread B a fixed list of 1-3 emitting calls, 0/1 observer subscribed beforehand, either thread scheduled first; every schedule with <=1 (quick) / <=2 (thorough) preemptions is run; oracle = linearizability against the same sequential model: the racing subscriber's list must equal the model's list for SOME position of its subscribe in the emitter's call sequence (so its first notification is the value current at registration and nothing earlier follows), earlier subscribers see the sequential outcome, no deadlock/exception; non-trivial = calls overlapped and >=2 distinct outcomes observed. det_error (run last): the same with on_error as the terminal call. raising: histories whose observers are plain except one whose k-th handler raises; checked afterwards: observers served before "
     "it, every later notification to every subscribed observer, terminal / current value for later subscribers; left open: "
     "re-raise to the caller, the rest of that one delivery, the raiser itself; non-trivial there = a notification was delivered in a "
-    "later command than the raise. Distinct = distinct case JSON."
+    "later command than the raise. Histories also terminate through the public "
+    "Observer.fail(e) (no effect on a terminated/disposed subject): same terminal clauses as on_error. Distinct = distinct case JSON."
 )
 ASSUMPTIONS = [
     "observers are attached through the public Observable.subscribe (auto-detaching wrapper included); within one delivery observers are served in subscription order",
@@ -44,6 +45,7 @@ _ALPHABET = [
     ["error", "e1"],
     ["completed"],
     ["dispose"],
+    ["fail", "e2"],
 ]
 
 
